@@ -201,6 +201,10 @@ func (handler *Handler) loadByteArray(source []byte) (net1 *dhcpSubnet, net2 *dh
 	// Careful: Yaml does not set private fields in unmarshaled structured.
 	//          so the v.subnet is nil and will cause a fatal error
 	if table.Leases != nil {
+		// a damaged file may carry leases without a valid subnet section
+		if net1 == nil || net2 == nil {
+			return nil, nil, nil, fmt.Errorf("leases without subnet configuration")
+		}
 		for _, v := range table.Leases {
 			// MUST set v.subnet before printing to avoid fatal error
 			//      when printing v
